@@ -3,7 +3,9 @@ SPECIFICATION TraceSpec
 CONSTANTS
     Owners = {"A", "B"}
     Serials = {"z0", "s1", "s256", "s2e64"}
-    Bodies = {1, 2}
+    Bodies = {1, 2, 3}
+    ForeignBodies = {3}
+    ForeignSerials = {"s1"}
     KeySeq <- KeySeqGen
     ZeroSerials = {"z0"}
     Impl = "asfound"
@@ -12,7 +14,7 @@ CONSTANTS
     PageSizes = {0, 1, 2}
     PageModes = {"key", "total", "offset"}
     WithQueries = TRUE
-INVARIANTS T_Unique T_ListingsTotal T_LookupExact T_ListingComplete
+INVARIANTS T_NamedAccount T_Unique T_ListingsTotal T_LookupExact T_ListingComplete
 PROPERTIES T_Steps
 POSTCONDITION T_AllConsumed
 CHECK_DEADLOCK FALSE
